@@ -19,6 +19,7 @@ namespace c03
   {
     const LD sgn = ((i + j + id) & 1) ? LD(-1) : LD(1);
     if(alphabet == 0) return sgn * LD(1 + j + 3 * i + 9 * id) / LD(4);
+    if(alphabet == 2) return -LD(1 + j + 3 * i + 9 * id) / LD(4);   // all negative
     return aval(1, i + 2 * id, j + id);
   }
 
